@@ -4,7 +4,7 @@
    textbook definition stated in words) in the class docstring of the gate; nothing here is
    derived from the library's matrix code.  It is the thing the extracted matrices are compared to.
 
-   Conventions: parameter j (0-based, constructor order) appears through
+   Conventions: gate angle number j (0-based, constructor order) appears through
      c j = cos(theta_j/2), s j = sin(theta_j/2), pexp j n d = exp(i (n/d) theta_j);
    a matrix is its list of rows; the first listed wire is the MOST significant bit of the index. *)
 From Coq Require Import List ZArith QArith String.
@@ -83,7 +83,7 @@ Definition P_XX : gt_mat := [[p0; p0; p0; p1]; [p0; p0; p1; p0]; [p0; p1; p0; p0
 Definition P_ZZ : gt_mat := gt_diag [p1; m1; m1; p1].
 Definition P_ZZZ : gt_mat := gt_diag [p1; m1; m1; p1; m1; p1; p1; m1].
 
-(* Rot(phi, theta, omega) entries, parameters 0,1,2 *)
+(* Rot(phi, theta, omega) entries, angles number 0,1,2 *)
 Definition rot00 : poly := em 0 *p em 2 *p c 1.             (*  e^{-i(phi+omega)/2} cos(theta/2) *)
 Definition rot01 : poly := -p (ep 0 *p em 2 *p s 1).        (* -e^{ i(phi-omega)/2} sin(theta/2) *)
 Definition rot10 : poly := em 0 *p ep 2 *p s 1.             (*  e^{-i(phi-omega)/2} sin(theta/2) *)
